@@ -54,7 +54,32 @@ macro_rules! bufs {
     };
 }
 
+/// user-side implementations of the public, unsealed `AsyncIterator` trait whose associated buffer type `B` is NOT the buffer
+/// the wrapped iterator `I` runs on: nothing a wrapper's `Send` rests on may be decided by `B`
+macro_rules! foreign {
+    ($name:ident, $I:ty, $B:ty) => {
+        #[allow(dead_code)]
+        struct $name { inner: $I }
+        impl mutringbuf::iterators::async_iterators::AsyncIterator for $name {
+            type I = $I;
+            type B = $B;
+            fn register_waker(&mut self, _w: &std::task::Waker) {}
+            fn inner(&self) -> &Self::I { &self.inner }
+            fn inner_mut(&mut self) -> &mut Self::I { &mut self.inner }
+            fn into_sync(self) -> Self::I { self.inner }
+            fn from_sync(iter: Self::I) -> Self { Self { inner: iter } }
+        }
+    };
+}
+foreign!(ForeignLocalProd, ProdIter<'static, LocalHeapRB<Rc<u8>>>, ConcurrentHeapRB<u8>);
+foreign!(ForeignLocalWork, WorkIter<'static, LocalHeapRB<usize>>, ConcurrentHeapRB<usize>);
+foreign!(ForeignRcCons, ConsIter<'static, ConcurrentHeapRB<Rc<u8>>, false>, ConcurrentHeapRB<u8>);
+
 fn main() {
+    row!("Foreign", "Prod", 0, 0, 0, AsyncDetached<ForeignLocalProd, ConcurrentHeapRB<u8>>);
+    row!("Foreign", "Work", 0, 1, 1, AsyncDetached<ForeignLocalWork, ConcurrentHeapRB<usize>>);
+    row!("Foreign", "Cons", 1, 0, 0, AsyncDetached<ForeignRcCons, ConcurrentHeapRB<u8>>);
+
     bufs!(1, 1, usize);
     bufs!(0, 0, Rc<u8>);
     bufs!(1, 0, Cell<u8>);
